@@ -20,6 +20,20 @@ struct History {
     scalars: BTreeMap<[u8; 32], String>,
     points: BTreeMap<Vec<u8>, String>,
     transcripts: u64,
+    /// leading octet of every FRESH value (blinders, blind factors, random keys) of the run
+    fresh_tops: Vec<u8>,
+}
+
+/// fresh values are uniform in [0, r), r = 0x73ed...: 45% of them have a leading octet >= 0x40.
+/// A source confined to a sub-range (a draw of 254 bits, a reduction that drops the top) never
+/// produces one; 64 uniform values all below 2^254 have probability 0.552^64 < 2^-54
+fn check_range_coverage(cx: &mut Cx, h: &History, origin: &str) {
+    let n = h.fresh_tops.len();
+    if n < 64 { return; }
+    cx.count("n.range_coverage_tests");
+    if !h.fresh_tops.iter().any(|&t| t >= 0x40) {
+        cx.violation("C07", "range/no-fresh-value-at-or-above-2^254".into(), format!("{origin}: none of {n} fresh blinding values reaches 2^254 (45% of uniform scalars do; probability < 2^-54): the source does not cover Z_r"));
+    }
 }
 
 fn see_scalar(cx: &mut Cx, h: &mut History, kind: &str, s: &Scalar, origin: String) {
@@ -29,6 +43,7 @@ fn see_scalar(cx: &mut Cx, h: &mut History, kind: &str, s: &Scalar, origin: Stri
         cx.violation("C07", format!("zero/{kind}"), format!("{origin}: {kind} is zero"));
         return;
     }
+    if matches!(kind, "e~" | "m~" | "cm~" | "s~" | "secret_prover_blind" | "BlindFactor::random") { h.fresh_tops.push(b[0]); }
     if b[..12] == [0u8; 12] {
         cx.violation("C07", format!("low-entropy/{kind}"), format!("{origin}: {kind} = {} is below 2^160 (probability 2^-94 for a uniform scalar)", hex::encode(b)));
     }
@@ -51,6 +66,8 @@ struct Inputs {
     pk: Bytes,
     sig: Bytes,
     bsig: Bytes,
+    /// a blind signature issued WITHOUT any commitment (the blind slot holds the scalar 0)
+    bsig0: Bytes,
     header: Option<Bytes>,
     msgs: Vec<Bytes>,
     committed: Vec<Bytes>,
@@ -87,6 +104,13 @@ fn volume(cx: &mut Cx) {
         if zb > 0 { cx.violation("C07", "zero/BlindFactor::random".into(), format!("{zb} of {} random blind factors are zero", all_b.len())); }
         for (name, mut v) in [("calculate_random_scalars", all_a), ("BlindFactor::random", all_b)] {
             let n = v.len();
+            // coverage of Z_r: among >= 10^5 uniform draws every leading octet 0x00..=0x73 occurs
+            // (each with probability about 1/116; a miss has probability < e^-800)
+            let mut tops = [false; 256];
+            for x in &v { tops[x[0] as usize] = true; }
+            let missing: Vec<String> = (0u8..=0x73).filter(|t| !tops[*t as usize]).map(|t| format!("{t:#04x}")).collect();
+            cx.count("n.range_coverage_tests");
+            if !missing.is_empty() { cx.violation("C07", format!("range/volume/{name}"), format!("no draw among {n} begins with {}: the source does not cover Z_r", missing.join(", "))); }
             v.sort_unstable(); v.dedup();
             if v.len() != n { cx.violation("C07", format!("repeat/volume/{name}"), format!("{} of {n} draws repeat an earlier one (a uniform 255-bit source repeats with probability < 2^-200)", n - v.len())); }
         }
@@ -109,7 +133,7 @@ pub fn run_c07(cx: &mut Cx) {
     let holders: Vec<NodeId> = (0..k).map(|i| cx.node(&format!("holder{i}"))).collect();
     let seed = cx.run_seed;
     let hist = Rc::new(RefCell::new(History::default()));
-    let first_op = cx.ch.choose("common_first_op", 5);
+    let first_op = cx.ch.choose("common_first_op", 6);
     let hist_outer = hist.clone();
     let inp_outer: Rc<RefCell<Option<Rc<Inputs>>>> = Rc::new(RefCell::new(None));
     let inp_slot = inp_outer.clone();
@@ -121,7 +145,8 @@ pub fn run_c07(cx: &mut Cx) {
         let sig = api::sign(suite, &sk, &pk, &header, &Some(msgs.clone()))?;
         let (cwp, blind) = api::commit(suite, &Some(committed.clone()))?;
         let bsig = api::blind_sign(suite, &sk, &pk, &Some(cwp.clone()), &header, &Some(msgs.clone()))?;
-        Ok::<_, String>(Inputs { suite, pk, sig, bsig, header, msgs, committed, cwp, blind })
+        let bsig0 = api::blind_sign(suite, &sk, &pk, &None, &header, &Some(msgs.clone()))?;
+        Ok::<_, String>(Inputs { suite, pk, sig, bsig, bsig0, header, msgs, committed, cwp, blind })
     }, move |cx, st| {
         let inp = match st.out { Ok(Ok(i)) => Rc::new(i), other => { cx.log(format!("issuance failed: {:?}", other.err())); return; } };
         // the issuance commitment is itself a transcript
@@ -130,7 +155,7 @@ pub fn run_c07(cx: &mut Cx) {
         for (hi, &h) in holders.iter().enumerate() {
             let n = 2 + cx.ch.choose("generations", 5);
             for g in 0..n {
-                let op = if g == 0 { first_op } else { cx.ch.choose("op", 5) };
+                let op = if g == 0 { first_op } else { cx.ch.choose("op", 6) };
                 if g > 0 && cx.ch.chance("restart_holder", 1, 4) { cx.restart(h); }
                 generation(cx, h, hi, g, op, inp.clone(), hist.clone());
             }
@@ -141,6 +166,7 @@ pub fn run_c07(cx: &mut Cx) {
     if let (Some(inp), true) = (inp, cx.ch.chance("concurrent_burst", 1, 4)) { burst(cx, inp, hist_outer.clone()); }
     let t = hist_outer.borrow().transcripts;
     cx.add("n.transcripts", t);
+    check_range_coverage(cx, &hist_outer.borrow(), "whole run");
 }
 
 fn generation(cx: &mut Cx, h: NodeId, hi: usize, g: u64, op: u64, inp: Rc<Inputs>, hist: Rc<RefCell<History>>) {
@@ -173,6 +199,19 @@ fn generation(cx: &mut Cx, h: NodeId, hi: usize, g: u64, op: u64, inp: Rc<Inputs
                 let mut idx = didx.clone();
                 idx.extend(dcidx.iter().map(|j| j + l + 1));
                 inspect_proof(cx, &mut hist.borrow_mut(), &p, &inp.bsig, &vec, &idx, origin);
+            });
+        }
+        5 => {
+            // a presentation of the blind signature that was issued without a commitment, by a
+            // holder with no prover blind: the blind slot (position L) holds the scalar 0 and is
+            // always hidden -- its blinder is as fresh and as non-zero as every other
+            cx.count("probe.presentation_of_a_blind_signature_without_commitment");
+            let (pk, sig, hd, ms, d) = (inp.pk.clone(), inp.bsig0.clone(), inp.header.clone(), inp.msgs.clone(), didx.clone());
+            cx.step(h, "blind_proof_gen(no commitment, no prover blind)", opts, move || api::blind_proof_gen(suite, &pk, &sig, &hd, &None, &Some(ms), &None, &Some(d), &None, &None), move |cx, st| {
+                let Ok(Ok(p)) = st.out else { cx.log(format!("{origin}: blind_proof_gen failed (C05's business)")); return; };
+                cx.eval(&[b"bproof0", &p], true);
+                let (_, vec) = rm::blind_vector(suite, &inp.msgs, &[], &Scalar::ZERO).unwrap();
+                inspect_proof(cx, &mut hist.borrow_mut(), &p, &inp.bsig0, &vec, &didx, origin);
             });
         }
         3 => {
@@ -220,7 +259,8 @@ fn inspect_proof(cx: &mut Cx, h: &mut History, proof: &[u8], sig: &[u8], vector:
     see_scalar(cx, h, "e^", &p.e_cap, origin.clone());
     see_scalar(cx, h, "r1^", &p.r1_cap, origin.clone());
     see_scalar(cx, h, "r3^", &p.r3_cap, origin.clone());
-    for (k, x) in p.m_cap.iter().enumerate() { see_scalar(cx, h, "m^", x, format!("{origin}/k={k}")); }
+    // (a hidden slot that holds the scalar 0 -- the blind slot without a prover blind -- has m^ = m~, already recorded)
+    for (k, x) in p.m_cap.iter().enumerate() { if vector[und[k]] == Scalar::ZERO { continue; } see_scalar(cx, h, "m^", x, format!("{origin}/k={k}")); }
     // nothing secret in clear anywhere in the octets
     let secrets32: Vec<([u8; 32], String)> = und.iter().map(|&j| (vector[j].to_be_bytes(), format!("hidden message scalar {j}"))).chain([(sg.e.to_be_bytes(), "signature exponent e".to_string())]).collect();
     for w in 0..=proof.len().saturating_sub(32) {
